@@ -417,6 +417,12 @@ def gen_damages(rng, subj, tier):
             else:
                 for _ in range(60 if tier == "quick" else 600):
                     offs[(rng.below(min(n, 165)), "=%02x" % rng.below(256))] = 1
+        # every used section-table NAME byte: the names of the two optional sections (positions, table of
+        # positions) and a neighbouring name - a name that turns into another valid one
+        for lo, hi, nm in subj["regions"]:
+            if ".sectab." in ("." + nm) and nm.endswith(".name") and ".unused." not in nm:
+                for v in ("=03", "=04", "dec", "inc"):
+                    offs[(lo, v)] = 1
         for lo, hi, nm in subj["regions"]:
             if nm.startswith(("payload.", "member.payload.")):
                 for o in range(lo, min(hi, lo + (16 if tier == "thorough" else 4))):
